@@ -486,3 +486,84 @@ Proof.
   - unfold repair in H. destruct (existsb _ _); [discriminate|].
     inversion H; subst; simpl. repeat split; auto. right. exists crecs, idx, kept. auto.
 Qed.
+
+(* ------------------------------------------------------------------ what a successful open replays *)
+Definition replay (cs : list chunk) (mv cap lastmm : Z) (walrecs wblrecs : list wrec) : head :=
+  fold_left (wbl_rec cap lastmm) wblrecs (fold_left (wal_rec cs mv) walrecs (mkH [] 0 false)).
+
+Theorem open_ok_shape : forall d h d' k cr cl,
+  open d = OOk h d' k cr cl ->
+  exists cs files crecs wrecs wst,
+    load_chunks (d_chunks d) = ChOk cs files cr /\
+    read_log (ckpt_recs d) = (crecs, LClean) /\ read_log (d_wal d) = (wrecs, wst) /\
+    let rp := replay cs (d_minvalid d) (d_cap d) (last_mmref cs) (crecs ++ wrecs) in
+    ((k = KNone /\ wst = LClean /\ exists brecs, read_log (d_wbl d) = (brecs, LClean) /\
+        h = gc (rp brecs) /\ d_wal d' = new_segment (d_wal d)) \/
+     (k = KWbl /\ wst = LClean /\ exists brecs idx kept, read_log (d_wbl d) = (brecs, LCorrupt idx kept) /\
+        h = gc (rp brecs) /\ d_wal d' = new_segment (d_wal d)) \/
+     (k = KWal /\ exists idx kept, wst = LCorrupt idx kept /\ h = gc (rp []) /\
+        d_wbl d' = (if 0 <? d_cap d then new_segment (d_wbl d) else d_wbl d))).
+Proof.
+  intros d h d' k cr cl H. unfold open in H.
+  destruct (load_chunks (d_chunks d)) as [cs files crep| | |] eqn:Ec; try discriminate.
+  destruct (read_log (ckpt_recs d)) as [crecs cst] eqn:Eck.
+  destruct cst; try discriminate.
+  2:{ destruct (repair (new_segment (d_wal d)) idx []) as [[w|] w2]; discriminate. }
+  destruct (read_log (d_wal d)) as [wrecs wst] eqn:Ew.
+  destruct wst; try discriminate.
+  - destruct (read_log (d_wbl d)) as [brecs bst] eqn:Eb.
+    destruct bst; try discriminate.
+    + inversion H; subst. exists cs, files, crecs, wrecs, LClean. repeat split; auto.
+      left. repeat split; auto. exists brecs. repeat split; auto.
+      unfold replay. rewrite fold_left_app. reflexivity.
+    + destruct (repair _ idx kept) as [[b|] b2] eqn:Er; try discriminate. inversion H; subst.
+      exists cs, files, crecs, wrecs, LClean. repeat split; auto.
+      right. left. repeat split; auto. exists brecs, idx, kept. repeat split; auto.
+      unfold replay. rewrite fold_left_app. reflexivity.
+  - destruct (repair _ idx kept) as [[w|] w2] eqn:Er; try discriminate. inversion H; subst.
+    exists cs, files, crecs, wrecs, (LCorrupt idx kept). repeat split; auto.
+    right. right. split; auto. exists idx, kept. repeat split; auto.
+    unfold replay. simpl. rewrite fold_left_app. reflexivity.
+Qed.
+
+(* replay ignores empty / unknown records *)
+Lemma replay_wal_strip : forall cs mv recs h,
+  fold_left (wal_rec cs mv) recs h = fold_left (wal_rec cs mv) (strip recs) h.
+Proof.
+  induction recs as [|r t IH]; intros h; simpl; auto.
+  destruct r; simpl; auto.
+Qed.
+Lemma replay_wbl_strip : forall cap lm recs h,
+  fold_left (wbl_rec cap lm) recs h = fold_left (wbl_rec cap lm) (strip recs) h.
+Proof.
+  induction recs as [|r t IH]; intros h; simpl; auto.
+  destruct r; simpl; auto.
+Qed.
+
+(* the damage lies before offset b *)
+Definition dmg_lt (d : dmg) (b : Z) : bool :=
+  match d with DNone => false | DTrunc off => off <? b | DByte off _ => off <? b end.
+
+Lemma hits_lt : forall d a b, dmg_lt d b = false -> hits d a b = false.
+Proof.
+  intros d a b H. destruct d; simpl in *; auto. rewrite H. apply andb_false_r.
+Qed.
+
+(* every record that ends before the damage is delivered, whatever the damage is *)
+Lemma rd_before : forall d o vend recs m pos,
+  (m <= length recs)%nat ->
+  (forall j r, (j < m)%nat -> nth_error recs j = Some r -> dmg_lt d (r_end r) = false) ->
+  exists out' st, rd d o vend pos recs = (map r_rec (firstn m recs) ++ out', st).
+Proof.
+  induction recs as [|x rest IH]; intros m pos Hm Hb.
+  - assert (m = 0)%nat by (simpl in Hm; lia). subst. simpl firstn. simpl map. simpl app.
+    destruct (rd d o vend pos []) as [out st]. eauto.
+  - destruct m as [|m].
+    + simpl firstn. simpl map. simpl app. destruct (rd d o vend pos (x :: rest)) as [out st]. eauto.
+    + simpl. rewrite (hits_lt d pos (r_end x)).
+      * destruct (IH m (r_end x)) as (out' & st & E).
+        -- simpl in Hm. lia.
+        -- intros j r Hj Hn. apply (Hb (S j) r); [lia|exact Hn].
+        -- rewrite E. eauto.
+      * apply (Hb 0%nat x); [lia|reflexivity].
+Qed.
